@@ -58,8 +58,11 @@ def one_case(ctx, rng, sb, nfaults):
         if tree["kind"] in ("special", "sym"):
             # item roots are canonicalised (symlinks resolved) before the walk: a symlink is never an item root
             tree = {"kind": "dir", "children": [(1, tree)], "fault": "none"}
-        items.append({"before": None, "after": None, "tree": tree if rng.random() > 0.08 else None})
-    case = walkrun.WalkCase(sb, items)
+        hooks = [None, None]
+        if rng.random() < 0.3:
+            hooks = [rng.choice([None, True, False]), rng.choice([None, True, False])]
+        items.append({"before": hooks[0], "after": hooks[1], "tree": tree if rng.random() > 0.08 else None})
+    case = walkrun.WalkCase(sb, items, fail_seed=rng.randrange(4))
     # undecodable / unrepresentable names inside directories of the tree
     bad_paths = [[] for _ in items]
     for i, it in enumerate(items):
@@ -112,7 +115,8 @@ def one_case(ctx, rng, sb, nfaults):
     shutil.rmtree(case.st)
     os.makedirs(case.st)
     rc, out, ev = traced(case, inject or None)
-    wire = [1900, [[[[], [], [walkrun.wire_node(it["tree"])] if it["tree"] is not None else [], bad_paths[i]] for i, it in enumerate(items)]]]
+    wire = [1900, [[[walkrun.hook_wire(it["before"]), walkrun.hook_wire(it["after"]), [walkrun.wire_node(it["tree"])] if it["tree"] is not None else [], bad_paths[i]]
+                    for i, it in enumerate(items)]]]
     mres = model.run_driver([wire])[0]
     arch, m_err, m_warn, aborted, ok = walkrun.model_archive(mres)
     errs = slevel.errors_of(out)
@@ -144,6 +148,10 @@ def one_case(ctx, rng, sb, nfaults):
             problem = "exit 0 but nothing was published"
         else:
             for i, it in enumerate(items):
+                if it["before"] is False or it["after"] is False:
+                    problem = "exit 0 although a hook of item %d failed (non-zero exit status or death from a signal)" % i
+                    ctx.count("hook.failing")
+                    break
                 if it["tree"] is None:
                     problem = "exit 0 although item %d does not exist" % i
                     break
